@@ -25,24 +25,14 @@ f_dump_prog (void)
   object_t *ob;
   int narg = st_num_arg;
 
-  if (st_num_arg == 2)
-    {
-      ob = sp[-1].u.ob;
-      d = (int)sp->u.number;
-      where = 0;
-    }
-  else if (st_num_arg == 3)
-    {
-      ob = sp[-2].u.ob;
-      d = (int)sp[-1].u.number;
-      where = (sp->type == T_STRING) ? sp->u.string : 0;
-    }
-  else
-    {
-      ob = sp->u.ob;
-      d = 0;
-      where = 0;
-    }
+  {
+    /* dump_prog (object [, int flags [, string file]]): only the first argument is type checked by the caller */
+    svalue_t *arg = sp - narg + 1;
+
+    ob = arg[0].u.ob;
+    d = (narg >= 2 && arg[1].type == T_NUMBER) ? (int) arg[1].u.number : 0;
+    where = (narg >= 3 && arg[2].type == T_STRING) ? arg[2].u.string : 0;
+  }
   if (!(prog = ob->prog))
     {
       error ("No program for object.\n");
